@@ -472,7 +472,9 @@ def nearest_part(job, r):
         later = sorted(rng.sample(w.pub_times, rng.randint(1, len(w.pub_times)))) if variant != 'only-earlier-publications' else []
         earlier = [T0 - 86400 * k for k in rng.sample(range(1, 40), rng.randint(0 if later else 1, 2))]
         F = [(pt, w.cal.chain(T0, pt, s.root).root()) for pt in later] + [(pt, gen.rnd_imprint(rng, 1)) for pt in earlier]
-        recs = [hdr()] + [cert_rec(x) for x in (w.cert_ok, w.cert_ok2)] + [pub_rec(t, h) for t, h in sorted(F)]
+        # some records carry publication references and repository URIs: what the extended signature carries is the whole record
+        deco = {t: ([['ref one', 'ref two'], [], ['r']][(i + t) % 3], [['http://repo.example/a', 'http://repo.example/b'], [], []][(i + t // 86400) % 3]) for t, h in F}
+        recs = [hdr()] + [cert_rec(x) for x in (w.cert_ok, w.cert_ok2)] + [pub_rec(t, h, refs=deco[t][0], uris=deco[t][1]) for t, h in sorted(F)]
         body = MAGIC + b''.join(x.enc() for x in recs)
         pf = body + sig_rec((w.pf_foreign if variant == 'signed-by-foreign-ca' else w.pf_signer).pkcs7_detached(body, work)).enc()
         if variant == 'tampered-after-signing':
@@ -523,7 +525,15 @@ def nearest_part(job, r):
             elif len(pr) != 1 or R.parse_pub_data(R.expand(pr[0]).one(0x10)) != (target, chain.root()):
                 r.viol('extend:nearest:publication-record-wrong', 'result does not carry the publication of %d' % target, replay + ' result=' + q['sig'])
             else:
-                r.count('nearest_extensions_checked')
+                want = R.expand(pub_rec(target, chain.root(), refs=deco[target][0], uris=deco[target][1]))
+                have = R.expand(pr[0])
+                if [k.enc() for k in have.kids()] != [k.enc() for k in want.kids()]:
+                    lost = 'repository URIs' if [k.enc() for k in have.kids(0xa)] != [k.enc() for k in want.kids(0xa)] else 'publication references' if [k.enc() for k in have.kids(9)] != [k.enc() for k in want.kids(9)] else 'content'
+                    r.viol('extend:nearest:publication-record-incomplete:%s' % lost.replace(' ', '-'), 'the publication record of the result differs from the record of the publications file it was extended to (%s): has %s, file has %s' % (
+                        lost, [(k.tag, k.val[:30]) for k in have.kids() if k.tag != 0x10], [(k.tag, k.val[:30]) for k in want.kids() if k.tag != 0x10]), replay + ' result=' + q['sig'])
+                else:
+                    r.count('nearest_extensions_checked')
+                    r.count('nearest_records_with_uris' if deco[target][1] else 'nearest_records_without_uris')
         c('sigfree 0'); c('sigfree 1')
         c('ctxfree 0')
     pool.check_exit(None, r, sess.ex)
